@@ -7,6 +7,7 @@ PY2 = python_version_tuple()[0] == "2"
 
 import re
 import codecs
+import unicodedata
 from functools import partial
 
 from ural.utils import quote
@@ -120,9 +121,29 @@ UNSAFE_FOR_QUERY_ITEM = b" %&=#"
 UNSAFE_FOR_FRAGMENT = b" %"
 
 # NOTE: those method should only be used on parsed urls to canonicalize/normalize.
-safely_unquote_auth_item = partial(
-    unquote, only_printable=True, normalize_space=True, unsafe=UNSAFE_FOR_AUTH_ITEM
-)
+NON_ASCII_CHAR_RE = re.compile("[^\x00-\x7f]")
+
+
+def _quote_netloc_unsafe_match(match):
+    char = match.group(0)
+    normalized = unicodedata.normalize("NFKC", char)
+
+    if any(delimiter in normalized for delimiter in "/?#@:"):
+        return quote(char)
+
+    return char
+
+
+# NOTE: urlsplit refuses a netloc holding characters that NFKC normalization
+# turns into delimiters (e.g. a fullwidth "@"), so they must remain escaped
+def safely_unquote_auth_item(string):
+    string = unquote(
+        string, only_printable=True, normalize_space=True, unsafe=UNSAFE_FOR_AUTH_ITEM
+    )
+
+    return NON_ASCII_CHAR_RE.sub(_quote_netloc_unsafe_match, string)
+
+
 safely_unquote_path = partial(
     unquote, only_printable=True, normalize_space=True, unsafe=UNSAFE_FOR_PATH
 )
